@@ -240,10 +240,18 @@ theorem issueS2S_nonces (cfg : Cfg) (w : World) (t : Nat) (r : S2SReq) :
     | split
     | simp only)
   all_goals
-    right
+    have hnc := ‹nonceCheck cfg t r.nonceFault r.vps w.s2sNonces = _›
+    have hfst := nonceCheck_fst cfg t r.nonceFault r.vps w.s2sNonces
+    rw [hnc] at hfst
+    simp only at hfst
     first
-    | (rw [‹s2sNonceLoop cfg t r.vps w.s2sNonces = _›]; done)
-    | (rw [(createAccessToken_other _ _ _ _ _ _ _ _).1, ‹s2sNonceLoop cfg t r.vps w.s2sNonces = _›]; done)
+    | (rcases hfst with h1 | h1
+       · left; exact h1
+       · right; exact h1)
+    | (rw [(createAccessToken_other _ _ _ _ _ _ _ _).1]
+       rcases hfst with h1 | h1
+       · left; exact h1
+       · right; exact h1)
 
 theorem issueCode_nonces (cfg : Cfg) (sha : String → String) (w : World) (t : Nat) (r : CodeReq) :
     (issueCode cfg sha w t r).1.s2sNonces = w.s2sNonces := by
